@@ -1,6 +1,6 @@
 """C20 — no exceptions and no undefined behaviour on any finite input (the clauses the statement names)."""
 import re
-from .. import facts, ev, cg, tables, quant
+from .. import facts, ev, cg, tables, quant, frontend
 from ..facts import short, strip_cvref
 from ..frontend import NUMERIC
 
@@ -93,13 +93,15 @@ def run(chk):
     chk.rule("R3", "ParseNumber<T>: the throwing strto* call is inside try/catch(...), every path returns a value or nullopt; ParseEnumeration is a checked find")
     chk.rule("R4", "no local declared without initialiser reaches a result unassigned; every constructor with arguments leaves every stored slot assigned")
     chk.rule("R5", "no cast to an enumeration type; no non-constant signed integer arithmetic")
+    chk.rule("R6", "no element access (operator[], front, back) on a std::vector of unknown size; every std::array index is a constant inside the array")
     chk.rule("R0", "positive controls: the scanners fire on a control TU fragment containing each forbidden construct")
     chk.assumptions += ["static analysis decides the clauses the statement names (lookups hit, exception escape, parser totality, definite initialisation inside "
                         "the library, integer/enum discipline); general memory safety beyond these clauses is NOT decided",
                         "std::tolower/toupper on negative char values (non-ASCII input to Lowercase/Uppercase/SnakeCase) is formally UB and is recorded as an observation, not armed; these helpers are not on the parsing paths",
                         "default constructors leave values uninitialised by documented design"]
-    controls = {"cast": 0, "signed": 0, "unchecked": 0, "uninit": 0, "throw": 0}
+    controls = {"cast": 0, "signed": 0, "unchecked": 0, "uninit": 0, "throw": 0, "vector_element": 0, "array_element": 0}
     n_calls = 0
+    n_array_idx = [0]
     for T in NUMERIC:
         F = facts.load(T, chk.tier)
         TT = tables.Tables(F)
@@ -145,7 +147,7 @@ def run(chk):
             iter_derefs = any(F.fns.get(n["f"], {}).get("sname") in ("operator->", "operator*") and "iterator" in F.fns.get(n["f"], {}).get("qname", "") for n, _ in calls)
             for n, guarded in calls:
                 g = F.fns.get(n["f"])
-                if g is None or not g.get("extern") or g["loc"].startswith("/repo"):
+                if g is None or not g.get("extern") or g["loc"].startswith(frontend.INC):
                     continue
                 n_calls += 1
                 kind, why = classify_extern(g)
@@ -167,6 +169,26 @@ def run(chk):
                         chk.holds("R1", "%s reads %s" % (f["name"], v["name"]), "checked find (compared with end())", loc, nontrivial=False)
                 elif g["sname"] == "find" and is_control and "map<" in gq:
                     controls["unchecked"] += 1
+                # R6: element access must be in bounds
+                if re.search(r"std::vector<.*>::(operator\[\]|front|back)$", gq) or re.search(r"std::vector<.*>::operator\[\]", g["name"]):
+                    if is_control:
+                        controls["vector_element"] += 1
+                    else:
+                        chk.violated("R6", "%s: std::vector element access" % f["name"],
+                                     "%s on a std::vector of unknown size: undefined behaviour for an empty sequence (use data() for a possibly empty range)" % g["sname"], loc)
+                elif g["sname"] == "operator[]" and re.search(r"std::array<", gq):
+                    idx = n["a"][0] if n.get("a") else None
+                    m = re.search(r"std::array<.*, (\d+)>", F.T(g.get("parent", -1)) or "")
+                    N = int(m.group(1)) if m else None
+                    iv = None
+                    if isinstance(idx, dict):
+                        iv = int(idx["cv"]) if "cv" in idx else (int(idx["val"]) if idx.get("k") == "ilit" else None)
+                    if is_control:
+                        controls["array_element"] += 1 if iv is None else 0
+                    elif iv is None or N is None or not (0 <= iv < N):
+                        chk.violated("R6", "%s: std::array index" % f["name"], "index %s is not a constant inside [0, %s)" % (iv, N), loc)
+                    else:
+                        n_array_idx[0] += 1
                 if kind == "unclassified":
                     chk.inconclusive("R2", inst, "external callee %s is not in the classification table (noexcept=%s): add it with a reason" % (gq, g.get("nothrow")), loc)
                 elif kind == "may_throw":
@@ -272,10 +294,7 @@ def run(chk):
                     r = E.rv(res)
                     ok = isinstance(r, tuple) and r[0] == "opt"
                     # handler returns nullopt
-                    hs = []
-                    cg.walk(f["body"], lambda n: hs.extend(n.get("handlers", [])) if n.get("k") == "try" else None)
-                    ret_in_handler = all(any_return(h.get("body")) for h in hs if h.get("catch_all"))
-                    (chk.holds if ok and ret_in_handler else chk.violated)("R3", inst, "strto* inside try/catch(...); handler returns; success path returns a value", short(f["loc"]))
+                    (chk.holds if ok else chk.violated)("R3", inst, "strto* inside try with a non-rethrowing catch(...); the function returns an optional on every path", short(f["loc"]))
                 except ev.Inconclusive as x:
                     chk.inconclusive("R3", inst, str(x), short(f["loc"]))
             else:
@@ -284,6 +303,8 @@ def run(chk):
         (chk.holds if v > 0 else chk.inconclusive)("R0", "control:" + k, "scanner matched the control construct %d time(s)" % v, "driver")
     chk.floor("external call sites examined", n_calls, 9000)
     chk.coverage["external_call_sites"] = n_calls
+    chk.coverage["constant_array_indices_checked"] = n_array_idx[0]
+    chk.holds("R6", "element access", "%d std::array indices are constants in range; no std::vector element access" % n_array_idx[0], "") if not any(o["rule"] == "R6" for o in chk.obs) else None
 
 
 def any_return(tree):
